@@ -178,17 +178,12 @@ Qed.
 (* ------------------------------------------------------------------ events and histories *)
 Lemma dispatch_ev_eq_spec : forall c e, dispatch_ev c e = spec_ev c e.
 Proof.
-  intros c e. destruct e; cbn [dispatch_ev spec_ev].
-  - rewrite publication_matched_eq_spec. reflexivity.
-  - rewrite offered_incompatible_qos_eq_spec. reflexivity.
-  - rewrite offered_deadline_missed_eq_spec. reflexivity.
-  - rewrite publication_unmatched_eq_spec. reflexivity.
-  - rewrite subscription_matched_eq_spec. reflexivity.
-  - rewrite requested_incompatible_qos_eq_spec. reflexivity.
-  - rewrite requested_deadline_missed_eq_spec. reflexivity.
-  - rewrite subscription_unmatched_eq_spec. reflexivity.
-  - rewrite data_eq_spec. reflexivity.
-  - rewrite sample_rejected_eq_spec. reflexivity.
+  intros c e. destruct e; cbn [dispatch_ev spec_ev];
+    rewrite ?publication_matched_eq_spec, ?offered_incompatible_qos_eq_spec,
+            ?offered_deadline_missed_eq_spec, ?publication_unmatched_eq_spec,
+            ?subscription_matched_eq_spec, ?requested_incompatible_qos_eq_spec,
+            ?requested_deadline_missed_eq_spec, ?subscription_unmatched_eq_spec,
+            ?data_eq_spec, ?sample_rejected_eq_spec; reflexivity.
 Qed.
 
 Lemma run_events_eq_spec : forall c es, run_events c es = spec_events c es.
